@@ -29,20 +29,20 @@ def grad(t):
 CONFIGS = {
     "GibbsChain": ["free", "box", "nonneg", "box+nonneg", "T2.5"],
     "MetropolisChain": ["free", "box", "T2.5"],
-    "PcaChain": ["free", "box", "T2.5"],
-    "HamiltonianChain": ["free", "box", "mass-scalar", "mass-vector", "mass-matrix", "T2.5", "nograd", "box+nograd"],
+    "PcaChain": ["free", "box", "T2.5", "d3", "d3+box"],
+    "HamiltonianChain": ["free", "box", "mass-scalar", "mass-vector", "mass-matrix", "T2.5", "nograd", "box+nograd", "estmass-diag", "estmass-full"],
     "EnsembleSampler": ["free", "box", "alpha3"],
 }
-LO = np.array([-1.0, -1.5])
-HI = np.array([1.6, 1.2])
+LO = np.array([-1.0, -1.5, -2.0])
+HI = np.array([1.6, 1.2, 2.5])
 
 
 def build(kind, cfg, seed):
     from inference.mcmc import EnsembleSampler, GibbsChain, HamiltonianChain, PcaChain
     from inference.mcmc.gibbs import MetropolisChain
 
-    d = 2
-    start = np.array([0.5, 0.2])
+    d = 3 if "d3" in cfg else 2
+    start = np.array([0.5, 0.2, -0.4])[:d]
     T = 2.5 if cfg == "T2.5" else 1.0
     if kind in ("GibbsChain", "MetropolisChain"):
         cls = GibbsChain if kind == "GibbsChain" else MetropolisChain
@@ -55,7 +55,7 @@ def build(kind, cfg, seed):
         for p in ch.params:
             p.chk_int = 3
     elif kind == "PcaChain":
-        ch = PcaChain(posterior=post, start=start, widths=np.array([0.9, 0.6]), temperature=T, bounds=(LO.copy(), HI.copy()) if cfg == "box" else None, display_progress=False)
+        ch = PcaChain(posterior=post, start=start, widths=np.array([0.9, 0.6, 1.1])[:d], temperature=T, bounds=(LO[:d].copy(), HI[:d].copy()) if "box" in cfg else None, display_progress=False)
         for p in ch.params:
             p.chk_int = 3
         ch.dir_update_interval = 4
@@ -63,13 +63,13 @@ def build(kind, cfg, seed):
     elif kind == "HamiltonianChain":
         im = {"mass-scalar": 0.3, "mass-vector": np.array([0.5, 2.0]), "mass-matrix": np.array([[1.0, 0.3], [0.3, 0.7]])}.get(cfg)
         ch = HamiltonianChain(posterior=post, grad=None if "nograd" in cfg else grad, start=start, epsilon=0.4, temperature=T,
-                              bounds=(LO.copy(), HI.copy()) if "box" in cfg else None, inverse_mass=im, display_progress=False)
+                              bounds=(LO[:2].copy(), HI[:2].copy()) if "box" in cfg else None, inverse_mass=im, display_progress=False)
         ch.steps = 4
         ch.ES.chk_int = 3
     else:
         pos = np.array([[0.5, 0.2], [1.0, 0.4], [-0.6, 0.8], [0.1, -0.9], [0.9, -0.3]])
         ch = EnsembleSampler(posterior=post, starting_positions=pos, alpha=3.0 if cfg == "alpha3" else 2.0,
-                             bounds=(LO.copy(), HI.copy()) if cfg == "box" else None, display_progress=False)
+                             bounds=(LO[:2].copy(), HI[:2].copy()) if cfg == "box" else None, display_progress=False)
     ch.rng = np.random.default_rng(seed)
     for i, p in enumerate(getattr(ch, "params", [])):
         p.rng = np.random.default_rng(100 * seed + i)
@@ -162,6 +162,9 @@ def ev_savepoint(case):
             o = build(kind, cfg, seed)
             for _ in range(k):
                 step(o, kind)
+            if "estmass" in cfg and k >= 4:
+                # the mass is re-estimated from the samples so far (public API), then the chain is saved
+                o.estimate_mass(burn=0, diagonal=("diag" in cfg))
         origs.append(o)
     O1, O2 = origs
     t0 = tuning(O1, kind)
@@ -196,6 +199,12 @@ def ev_savepoint(case):
             src = R
             n += 1
         R = loaded[-1]
+        try:
+            r1, r2 = readout(loaded[0], kind), readout(R, kind)
+            if r1 != r2:
+                add_fail(f"readout/{label}/second-round-trip-differs-from-first", f"saved at step {k}", k=k)
+        except Exception:
+            pass  # reported below through the read-out of the reloaded sampler
         # ---- (1) read-outs
         try:
             with lib("readout-original"):
@@ -225,10 +234,12 @@ def ev_savepoint(case):
             tags.add(f"{label}:plots:{sorted(po.items())}")
         # ---- (2) continuation, by take_step and by advance
         m = L - k
-        for variant, O in (("take_step", O1), ("advance", O2)):
+        # the take_step continuation starts from the file of the FIRST round trip, the advance continuation from the second
+        # (a defect that cancels after two round trips, e.g. a transposition, must not go unnoticed)
+        for variant, O, fname in (("take_step", O1, "s1.npz"), ("advance", O2, "s2.npz")):
             try:
                 with lib("reload-for-continuation"):
-                    Rv = load(O, kind, os.path.join(tmp, "s2.npz"), cfg)
+                    Rv = load(O, kind, os.path.join(tmp, fname), cfg)
             except Exception as e:
                 add_fail(f"load/{label}/raises", f"{e}"[:300], k=k)
                 continue
